@@ -8,6 +8,10 @@ use fips204::Ph;
 use rand_core::{CryptoRng, Error, RngCore};
 use sha2::{Digest, Sha256};
 
+mod fixtures;
+
+fn unhex(s: &str) -> Vec<u8> { (0..s.len() / 2).map(|i| u8::from_str_radix(&s[2 * i..2 * i + 2], 16).unwrap()).collect() }
+
 struct Script {
     buf: [u8; 64],
     pos: usize,
@@ -73,6 +77,37 @@ macro_rules! kat {
             t.update(&is);
             t.update([u8::from(ps::_internal_verify(&pk, &msg, &is, &[]))]);
             t.update([u8::from(sk.try_sign_with_rng(&mut Script { buf: rb, pos: 0 }, &msg, &[0u8; 256]).is_err())]);
+        }
+        // an accepted private key with (partly) extreme t0 and an input for which signing needs several
+        // hundred rejection iterations (fixtures.rs, generated with the reference): the long-running path
+        // and its iteration bound must behave the same in every configuration, and give the reference's
+        // signature; a private key with one out-of-range field must be refused in every configuration
+        for (set, skh, mh, rndh, _iters, want) in fixtures::HOSTILE {
+            if set != $name {
+                continue;
+            }
+            let skb: [u8; ps::SK_LEN] = unhex(skh).try_into().expect("fixture sk length");
+            let hsk = ps::PrivateKey::try_from_bytes(skb).expect("hostile sk import");
+            let mut rb = [0u8; 64];
+            rb[..32].copy_from_slice(&unhex(rndh));
+            let m = unhex(mh);
+            match hsk.try_sign_with_rng(&mut Script { buf: rb, pos: 0 }, &m, &[]) {
+                Ok(sig) => {
+                    let dg = hex(&Sha256::digest(sig));
+                    t.update(dg.as_bytes());
+                    let ver = hsk.get_public_key().verify(&m, &sig, &[]);
+                    t.update([u8::from(dg == want), u8::from(ver)]);
+                    println!("HOSTILE {} {}", $name, if dg == want && ver { "ok" } else { "FAIL-differs-from-reference" });
+                }
+                Err(e) => {
+                    t.update(e.as_bytes());
+                    println!("HOSTILE {} FAIL-{}", $name, e.replace(' ', "_"));
+                }
+            }
+            let mut bad = skb;
+            bad[128] |= 7; // s1[0][0] raw field 7: out of range for eta = 2 and eta = 4
+            t.update([u8::from(ps::PrivateKey::try_from_bytes(bad).is_err())]);
+            t.update(hsk.into_bytes());
         }
         println!("KAT {} {}", $name, hex(&t.finalize()));
         #[cfg(feature = "dudect")]
